@@ -466,6 +466,10 @@ def check_terminator_flag(ctx):
 
 # formats in which the first line of a frame may legally be blank (an empty title): blank lines met while looking for
 # the next frame belong to that frame and must all be put back
+#: formats in which a blank line where a frame would start ends the sequence (reviewed: the first line of a frame is
+#: its atom count, which cannot be blank; trailing blank lines are common).  Everywhere else (PDB, MOL2: the frame
+#: parser itself skips blank lines between records; SDF, GRO: the title may be blank) a blank line ends nothing.
+BLANK_LINE_ENDS = {"xyz": "the first line of a frame is its atom count", "extxyz": "the first line of a frame is its atom count"}
 BLANK_FIRST_LINE = {"sdf": "the title line of a molfile may be empty", "gromacs": "the title line of a gro frame may be empty"}
 
 
@@ -559,13 +563,13 @@ def check_sequence_end(ctx, rid):
         for label, feed, outcome, stream, lineno in rows:
             if outcome != "return" or not any(ln.strip() for ln in feed):
                 continue
-            if feed[0].strip() or short in BLANK_FIRST_LINE:
+            if feed[0].strip() or short not in BLANK_LINE_ENDS:
                 bad = f"{label}: the sequence ends normally although {sum(1 for ln in feed if ln.strip())} non-blank line(s) follow: later frames (or a malformed frame that should be reported) are dropped silently"
                 break
         if bad:
             ctx.violate(rid, f"{short}.load_many, {bad}", lm, lm.node, construct=f"{short}.load_many ends on content: {bad}"[:180])
         else:
-            ctx.ok(rid, f"{short}.load_many: the sequence ends only at end of input" + ("" if short in BLANK_FIRST_LINE else " or at a blank line (a frame of this format cannot start with one)"), f"{lm.module.relpath}:{lm.lineno}")
+            ctx.ok(rid, f"{short}.load_many: the sequence ends only at end of input" + ("" if short not in BLANK_LINE_ENDS else f" or at a blank line ({BLANK_LINE_ENDS[short]})"), f"{lm.module.relpath}:{lm.lineno}")
     ctx.floor(rid, n, 6, "generator load_many functions")
 
 
